@@ -140,6 +140,8 @@ func init() {
 			// lengths that only exist with 10..20 digits: above 512 MB, next to 2^63, wrapping around 2^64
 			js = append(js, job(pkgServer, "HarnessC12Len", 10, 1), job(pkgServer, "HarnessC12Len", 19, 1), job(pkgServer, "HarnessC12Len", 20, 5))
 			// the other decoder branches: MGET / MSET / DEL / EVAL with one field (count, a length, numkeys, a key) arbitrary
+			// well-formed but unusual pipelines (QUIT behind a pending request, requests after QUIT ...), every two-read cut
+			js = append(js, noMapOrder(job(pkgServer, "HarnessC12Pipe", -1, -1)))
 			for kind := int64(0); kind <= 4; kind++ {
 				js = append(js, job(pkgServer, "HarnessC12Cmd", kind, -1, 2, 0))
 				if tier == "thorough" {
@@ -153,9 +155,9 @@ func init() {
 		},
 		Bounds: func(tier string) string {
 			if tier == "thorough" {
-				return "every client input of 1..13 arbitrary bytes in one read; every input of 9 bytes in every two-read segmentation; GET-shaped requests whose count field (1..3 bytes), length fields (1..3 bytes), name (3 bytes) and key (1 byte) are arbitrary; MGET/MSET/DEL/EVAL requests with any ONE field (count, a bulk length, numkeys, a key, the name) replaced by 1..3 arbitrary bytes; then one well-formed request from a second client"
+				return "every client input of 1..13 arbitrary bytes in one read; every input of 9 bytes in every two-read segmentation; GET-shaped requests whose count field (1..3 bytes), length fields (1..3 bytes), name (3 bytes) and key (1 byte) are arbitrary; MGET/MSET/DEL/EVAL requests with any ONE field (count, a bulk length, numkeys, a key, the name) replaced by 1..3 arbitrary bytes; six well-formed pipelines around QUIT / PING / unknown commands in every two-read cut; then three well-formed requests from a second client, which must be served and stay connected"
 			}
-			return "every client input of 1..9 arbitrary bytes in one read; every input of 7 bytes in every two-read segmentation; GET-shaped requests whose count field (1..2 bytes), length fields (1..2 bytes), name (3 bytes) and key (1 byte) are arbitrary; MGET/MSET/DEL/EVAL requests with any ONE field (count, a bulk length, numkeys, a key, the name) replaced by 2 arbitrary bytes; then one well-formed request from a second client"
+			return "every client input of 1..9 arbitrary bytes in one read; every input of 7 bytes in every two-read segmentation; GET-shaped requests whose count field (1..2 bytes), length fields (1..2 bytes), name (3 bytes) and key (1 byte) are arbitrary; MGET/MSET/DEL/EVAL requests with any ONE field (count, a bulk length, numkeys, a key, the name) replaced by 2 arbitrary bytes; six well-formed pipelines around QUIT / PING / unknown commands in every two-read cut; then three well-formed requests from a second client, which must be served and stay connected"
 		},
 		Assumptions: []string{"oracle for 'a Redis server would reject it': a transcription of redis networking.c processMultibulkBuffer and util.c string2ll (as lenient as Redis); 'offending' input = refused by that model AND visibly malformed on a complete line or payload (so a proxy that waits for a line end is not blamed)", "every feasible Go panic inside repository code counts as a crash (the proxy has no recover and one event-loop goroutine)"},
 		Stubs:       []string{stubWorld},
@@ -373,9 +375,10 @@ func init() {
 		Outside: []string{"statistical quality of math/rand, the real 5 s cadence and the 5 s retry sleep of the monitor, concurrent access of the ban fields by the monitor goroutine and the event loop"}})
 	register(&CheckSpec{ID: "C07", Patterns: []string{pkgServer},
 		Jobs: func(tier string) []*JobCfg {
-			js := []*JobCfg{job(pkgServer, "HarnessC07", 0, 2, 0), job(pkgServer, "HarnessC07", 1, 2, 0), job(pkgServer, "HarnessC07", 2, 2, 0), job(pkgServer, "HarnessC07", 1, 3, 0), job(pkgServer, "HarnessC07", 0, 3, 2)}
+			js := []*JobCfg{job(pkgServer, "HarnessC07", 0, 2, 0), job(pkgServer, "HarnessC07", 1, 2, 0), job(pkgServer, "HarnessC07", 2, 2, 0), job(pkgServer, "HarnessC07", 1, 3, 0), job(pkgServer, "HarnessC07", 0, 3, 2),
+				job(pkgServer, "HarnessC07", 0, 2, 3), job(pkgServer, "HarnessC07", 1, 2, 3), job(pkgServer, "HarnessC07", 2, 2, 3)}
 			if tier == "thorough" {
-				js = append(js, job(pkgServer, "HarnessC07", 0, 3, 0), job(pkgServer, "HarnessC07", 2, 3, 0), job(pkgServer, "HarnessC07", 0, 4, 2))
+				js = append(js, job(pkgServer, "HarnessC07", 0, 3, 0), job(pkgServer, "HarnessC07", 2, 3, 0), job(pkgServer, "HarnessC07", 0, 4, 2), job(pkgServer, "HarnessC07", 0, 3, 3))
 			}
 			for _, j := range js {
 				j.MapOrderSites = []string{"OnCReact", "SRespCodec).MSet"}
@@ -383,15 +386,15 @@ func init() {
 			return js
 		},
 		Bounds: func(tier string) string {
-			return "MGET/DEL/MSET with 2..3 keys on solver-chosen nodes (duplicates included), every value null / empty / 1..2 arbitrary bytes, DEL counts arbitrary, both arrival orders of the fragment replies, each reply in one or two reads"
+			return "MGET/DEL/MSET with 2..3 keys on solver-chosen nodes (duplicates included), every value null / empty / 1..2 arbitrary bytes, DEL counts arbitrary, both arrival orders of the fragment replies, each reply in one or two reads; the request itself arriving in two reads cut at EVERY position (2, thorough 3 keys)"
 		},
 		Assumptions: []string{"backend contract: a fragment's MGET reply has one element per key sent and equal elements for equal keys; DEL replies are single digits"}, Stubs: []string{stubWorld},
 		Outside: []string{"more than 3 keys / 2 nodes, counts >= 10"}})
 	register(&CheckSpec{ID: "C11", Patterns: []string{pkgServer},
 		Jobs: func(tier string) []*JobCfg {
-			js := []*JobCfg{job(pkgServer, "HarnessC11Single"), job(pkgServer, "HarnessC07", 1, 2, 1), job(pkgServer, "HarnessC07", 2, 2, 1)}
+			js := []*JobCfg{job(pkgServer, "HarnessC11Single"), job(pkgServer, "HarnessC07", 1, 2, 1), job(pkgServer, "HarnessC07", 2, 2, 1), job(pkgServer, "HarnessC11Seq", 12)}
 			if tier == "thorough" {
-				js = append(js, job(pkgServer, "HarnessC07", 0, 2, 1), job(pkgServer, "HarnessC07", 1, 3, 1))
+				js = append(js, job(pkgServer, "HarnessC07", 0, 2, 1), job(pkgServer, "HarnessC07", 1, 3, 1), job(pkgServer, "HarnessC11Seq", 40))
 			} else {
 				js = append(js, job(pkgServer, "HarnessC07", 0, 1, 1))
 			}
@@ -401,7 +404,7 @@ func init() {
 			return js
 		},
 		Bounds: func(tier string) string {
-			return "error replies '-' + EVERY 8 printable bytes (so -LOADING, -WRONGTYP, -TRYAGAIN, -READONLY, -CROSSSLO, -CLUSTERD, -ERR ... are included) other than the ones the proxy acts on, on any subset of the fragments of a 1..3-key MGET/DEL/MSET in both arrival orders and split reads; single-key GET answered with such an error"
+			return "error replies '-' + EVERY 8 printable bytes (so -LOADING, -WRONGTYP, -TRYAGAIN, -READONLY, -CROSSSLO, -CLUSTERD, -ERR ... are included) other than the ones the proxy acts on, on any subset of the fragments of a 1..3-key MGET/DEL/MSET in both arrival orders and split reads; single-key GET answered with such an error; 12 (thorough 40) requests in a row all answered with the same arbitrary error, then a normal reply"
 		},
 		Assumptions: []string{"the first 8 bytes of the error line are arbitrary printable bytes, the rest is fixed"}, Stubs: []string{stubWorld},
 		Outside: []string{"replies of the wrong shape that a Redis node cannot produce (e.g. a status reply to MGET)"}})
